@@ -64,7 +64,8 @@ def gen_atomtype(rng, rich=True):
 
 
 def gen_cnum(rng):
-    return rng.choice(CMP) + str(rng.randrange(0, 10))
+    sign = rng.choice(['-', '+', '- ']) if rng.random() < 0.08 else ''
+    return rng.choice(CMP) + sign + str(rng.randrange(0, 10))
 
 
 def gen_constraint(rng):
